@@ -56,8 +56,17 @@ _schema.SCHEMA["RemoteSession"]["methods"] = {"cmd_output": health_check}
 ADDRESS = "(self.params['nets_shell_host'] + ':' + self.params['nets_shell_port'])"
 LOGIN_ARGS = " and ".join(f"ghost('login.arg{i}', STR) == self.params['{k}']" for i, k in enumerate(
     ["nets_shell_client", "nets_shell_host", "nets_shell_port", "nets_username", "nets_password", "nets_shell_prompt"]))
+def _cache_alias(fn):
+    import ast
+    names = [n.targets[0].id for n in ast.walk(fn) if isinstance(n, ast.Assign) and len(n.targets) == 1
+             and isinstance(n.targets[0], ast.Name) and ast.unparse(n.value).endswith("._session_cache")]
+    return names[0] if len(names) == 1 else None
+
+
 GET_SESSION = Contract(
     target=f"{WORKER}::TestWorker.get_session", params={"self": Ref("TestWorker")}, setup=install_cache,
+    # the local alias of the class-level cache (`cache` today) is found by what it is assigned from
+    aliases={"cache": _cache_alias},
     requires=["wf_map(cache0)", "forall(STR, lambda a: implies(a in cache0, cache0[a] is not None))"],
     overrides={"remote.wait_for_login": login, "log.getLogger": get_logger},
     extra_names={"type": VFunc("handler", fn=type_of_self, name="type"), "ShellTimeoutError": None},
